@@ -17,8 +17,10 @@ Definition function_name (h : hdr) (subs : list node) : res pstr :=
   | KFunctionV0 =>
       match subs with
       | [Leaf _ (LRaw c)] =>
+          (* content["module_path"] + "." + content["function"], left to right: a module_path that is not a str
+             raises TypeError at the first + before content["function"] is looked up *)
           do m <- jindex c (s "module_path");
-          do f <- jindex c (s "function");
+          do f <- (match m with JStr _ => jindex c (s "function") | _ => Raise EType end);
           jqual m f
       | _ => Raise EOther
       end
@@ -32,10 +34,19 @@ Definition function_name (h : hdr) (subs : list node) : res pstr :=
 Definition is_function_kind (k : kind) : bool :=
   match k with KFunction | KFunctionV0 => true | _ => false end.
 
-(* is_self_safe() *)
+(* Node.is_self_safe(): check_type(module_name, class_name, trusted) (JsonNode: True) *)
 Definition self_safe (E : env) (T : trust) (h : hdr) : res bool :=
   if kind_eqb (h_kind h) KJson then Ok true
   else do n <- node_name h; Ok (mem n (node_trusted E T h)).
+
+(* is_self_safe() as the node's own class implements it: the protocol-0 FunctionNode (D31-FunctionNode@0 repaired)
+   checks the name it audits and imports, content.module_path + "." + content.function, against its trusted list; every
+   other class inherits Node.is_self_safe (JsonNode: True) *)
+Definition self_safe_of (E : env) (T : trust) (h : hdr) (subs : list node) : res bool :=
+  match h_kind h with
+  | KFunctionV0 => do fn <- function_name h subs; Ok (mem fn (node_trusted E T h))
+  | _ => self_safe E T h
+  end.
 
 (* how get_unsafe_set is implemented for a kind:
    UNothing  JsonNode: set()
